@@ -1,5 +1,6 @@
 #![allow(dead_code)]
 mod decode;
+mod encode;
 mod rng;
 mod wire;
 
@@ -39,6 +40,18 @@ fn main() {
             cases.extend(decode::generated(seed, 1500 * scale, 2500 * scale, 2500 * scale, 12 * scale));
             let summary = decode::drive(cases, &out, 8);
             println!("{}", json!({"summary": summary, "alphabet": alphabet, "maxlen": maxlen}));
+        }
+        "encode" => {
+            let mut cases = Vec::new();
+            if let Some(c) = a.get("cases") {
+                cases.extend(encode::cases_from_tlc(c));
+            }
+            let k = if thorough { 20 } else { 1 };
+            if !a.contains_key("only-cases") {
+                cases.extend(encode::random_cases(seed, 600 * k, 60 * k, 24 * k, 150 * k));
+            }
+            let summary = encode::drive(cases, &out);
+            println!("{}", json!({"summary": summary}));
         }
         "decode-one" => {
             let h = a.get("hex").cloned().unwrap_or_default();
